@@ -1,6 +1,7 @@
 package redisemu
 
 import (
+	"math"
 	"strings"
 	"time"
 )
@@ -90,10 +91,29 @@ func fnExpire(ctx *cmdContext, args map[string]any) (output respValue, err error
 	_, gt := args["condition.gt"]
 	_, lt := args["condition.lt"]
 
-	expiration := time.Now().Add(time.Duration(ttl) * time.Second)
+	expiration, valid := deadlineAfter(time.Now(), ttl, time.Second)
+	if !valid {
+		output.data = respErrorString("ERR invalid expire time in 'expire' command")
+		return
+	}
 
 	output = ctx.dsc.expire(keyName, expiration, nx, xx, gt, lt)
 	return
+}
+
+// deadlineAfter computes now + n units. valid is false when the deadline
+// cannot be represented (the product overflows a Duration): the caller must
+// refuse the command rather than store a wrapped deadline. A hugely
+// negative n is simply a deadline in the distant past.
+func deadlineAfter(now time.Time, n int64, unit time.Duration) (deadline time.Time, valid bool) {
+	limit := int64(math.MaxInt64) / int64(unit)
+	if n > limit {
+		return
+	}
+	if n < -limit {
+		return minTime, true
+	}
+	return now.Add(time.Duration(n) * unit), true
 }
 
 func fnExpireAt(ctx *cmdContext, args map[string]any) (output respValue, err error) {
@@ -104,6 +124,11 @@ func fnExpireAt(ctx *cmdContext, args map[string]any) (output respValue, err err
 	_, gt := args["condition.gt"]
 	_, lt := args["condition.lt"]
 
+	if ttl > math.MaxInt64/1000 || ttl < math.MinInt64/1000 {
+		// not representable in milliseconds
+		output.data = respErrorString("ERR invalid expire time in 'expireat' command")
+		return
+	}
 	expiration := time.Unix(ttl, 0)
 
 	output = ctx.dsc.expire(keyName, expiration, nx, xx, gt, lt)
@@ -129,7 +154,11 @@ func fnPExpire(ctx *cmdContext, args map[string]any) (output respValue, err erro
 	_, gt := args["condition.gt"]
 	_, lt := args["condition.lt"]
 
-	expiration := time.Now().Add(time.Duration(ttl) * time.Millisecond)
+	expiration, valid := deadlineAfter(time.Now(), ttl, time.Millisecond)
+	if !valid {
+		output.data = respErrorString("ERR invalid expire time in 'pexpire' command")
+		return
+	}
 
 	output = ctx.dsc.expire(keyName, expiration, nx, xx, gt, lt)
 	return
